@@ -28,7 +28,7 @@ import (
 )
 
 func init() {
-	register(&Scenario{Name: "sysrace", Props: []string{"C12", "C13", "C06"}, Kind: "system", Run: runSysRace})
+	register(&Scenario{Name: "sysrace", Props: []string{"C12", "C13", "C06", "C15"}, Kind: "system", Run: runSysRace})
 }
 
 var raceLogOffset int64
@@ -111,8 +111,15 @@ func runSysRace(x *X) {
 	if c.Intn(2, "wspool") == 1 {
 		o.wsPool = true
 	}
+	withGzip := false
 	if c.Intn(2, "plugins") == 1 {
 		o.plugins = []config.PluginConfig{{Name: "logging"}, {Name: "size_limit", Config: map[string]interface{}{"max_request_body": 1 << 20, "max_response_body": 1 << 20}}}
+		// (the compressor holds per-response state and may hold shared state: several responses go
+		// through it at the same time)
+		if c.Intn(2, "p-gzip") == 1 {
+			withGzip = true
+			o.plugins = append(o.plugins, config.PluginConfig{Name: "gzip", Config: map[string]interface{}{"level": 6.0, "min_size": 0.0, "content_types": []interface{}{"text/"}}})
+		}
 	}
 	o.logging.RequestID.Enabled = true
 	env, err := newSysEnv(x, o)
@@ -158,6 +165,10 @@ func runSysRace(x *X) {
 				}
 				ex.newConn = c.Intn(3, "newconn") == 0
 				rs := &respScript{status: 200, framing: "cl", hdr: []hdrKV{{"Content-Type", "text/plain"}}, body: []byte(fmt.Sprintf("resp-%d-%d", g, i))}
+				if withGzip && c.Intn(3, "accept-gzip") != 0 {
+					ex.hdr = append(ex.hdr, hdrKV{"Accept-Encoding", "gzip"})
+					rs.body = []byte(strings.Repeat(fmt.Sprintf("resp-%d-%d ", g, i), 20+c.Intn(200, "gz-repeat")))
+				}
 				faultOdds := 8
 				if o.breaker != nil {
 					faultOdds = 5 // the breaker should see enough failures to cycle through its states
@@ -345,6 +356,19 @@ func runSysRace(x *X) {
 		}
 		if all("internal/metrics/") {
 			x.Violate("C13", "C13/race-in-accounting{"+key+"}", "data race between %v in the metrics collector under %d goroutines of traffic (request accounting rests on these counters being updated race-free):\n%s", sites, nG, short)
+		}
+		anyIn := func(prefix string) bool {
+			for _, st := range sites {
+				if strings.HasPrefix(st, prefix) {
+					return true
+				}
+			}
+			return false
+		}
+		// (the other party of a race on the compressor's buffers is whoever touches the bytes next:
+		// a wrapper further out that writes them to the client)
+		if anyIn("internal/plugins/compression.go") {
+			x.Violate("C15", "C15/race-in-compressor{"+key+"}", "data race between %v in the gzip plugin with several responses in flight (each response decoding to its own backend's body rests on the compressor's state not being shared unsynchronised):\n%s", sites, short)
 		}
 		if all("internal/loadbalancer/ip_hash") {
 			x.Violate("C06", "C06/race-in-hash{"+key+"}", "data race between %v in the hash strategy under %d goroutines of traffic (one client, one backend rests on the hash step being race-free):\n%s", sites, nG, short)
